@@ -25,6 +25,10 @@ func init() { register("C20", runC20) }
 
 type myInt8 int8
 type myU16 uint16
+type c20err struct{}
+
+func (*c20err) Error() string { return "e" }
+
 type zeroer struct{ V, Mark int }
 
 func (z zeroer) IsZero() bool { return z.V == 0 }
@@ -692,6 +696,12 @@ func c20samples(c *core.Ctx) {
 		var ip *int
 		if !typ.IsNil(e) || !typ.IsNil[any](nil) || typ.IsNil[any](5) || typ.IsNil(fmt.Errorf("x")) || typ.IsNil[any](ip) == true && false {
 			c20fail(c, "IsNil", "IsNil wrong for interface-typed values")
+			return
+		}
+		// an interface holding a typed nil is NOT nil (v == nil is false)
+		var tn *zeroer
+		if typ.IsNil(error((*c20err)(nil))) || typ.IsNil[any](tn) || typ.IsNil[any]([]int(nil)) || typ.IsNil[any](map[int]int(nil)) || !typ.IsNil[error](nil) {
+			c20fail(c, "IsNil:typed-nil-in-interface", "IsNil must compare the interface value with nil: an interface holding a typed nil pointer/slice/map is not nil")
 			return
 		}
 		c.Count("utility_checks", 1)
